@@ -259,7 +259,9 @@ PROPS["C16"] = dict(
                "forward and reverse and compared with a sequential reference model (return value -N, rollback, resulting fields).",
     technique="bounded-exhaustive enumeration of topology pairs and diff lists on the real diff code; canonical-dump and sequential-model oracles",
     design_ref="DESIGN.md 5 (C16)",
-    stages=[simple("diff", "c16_diff", parts=16, deadline={"quick": 120, "thorough": 1200})],
+    stages=[simple("diff", "c16_diff", parts=16, deadline={"quick": 120, "thorough": 1200}),
+            # the XML backend is chosen once per process: the same enumeration with the built-in exporter/importer
+            simple("nolibxml", "c16_diff", parts=16, deadline={"quick": 120, "thorough": 1200}, env={"HWLOC_LIBXML": "0"})],
     explanation="B is produced by editing A's own XML export (rename, name set/unset, info value / add / remove / duplicate, NUMA local memory) and through the API (Misc insertion, restrict, subtype).",
     bounds={"quick": "<= 2 edits, <= 3 hand-built entries", "thorough": "same scope"},
     assumptions=COMMON_ASSUMPTIONS + ["A and B are both loaded from XML so that they went through the same pipeline"],
